@@ -17,7 +17,53 @@ import (
 	"github.com/glowlabs-org/gca-backend/glow"
 )
 
+// runSilentServerScenario: the real client with its real loop, and one server that accepts every
+// connection and then says nothing (the sync connection has no deadline, so every round that reaches it
+// is held for as long as the server likes). The loop has to go on starting rounds: a failed sync is
+// retried within four ticks (theorem c11_retry_after_failure). Observed: connections at the server.
+func runSilentServerScenario(seed uint64, t *Trace) error {
+	dev := detKey(seed, 1)
+	sink := newUDPSink()
+	defer sink.c.Close()
+	ss := newScriptServer()
+	defer ss.close()
+	rel := make(chan struct{})
+	ss.setHang(rel)
+	srvKey := detKey(seed, 60)
+	servers := map[glow.PublicKey]client.GCAServer{srvKey.Pub: {Location: myIP, HttpPort: 1, TcpPort: ss.port(), UdpPort: sink.port()}}
+	dir := freshDir("silent")
+	defer os.RemoveAll(dir)
+	content := "timestamp,energy (mWh)\n"
+	if err := writeClientDir(ClientDir{Dir: dir, Key: dev, GCAPub: detKey(seed, 1001).Pub, ShortID: 1, Servers: servers, Energy: &content}); err != nil {
+		return err
+	}
+	t.Line("scenario silent-%d", seed)
+	c, err := client.NewClient(dir)
+	if err != nil {
+		return err
+	}
+	conns := func() int { ss.mu.Lock(); defer ss.mu.Unlock(); return ss.conns }
+	t0 := time.Now()
+	for conns() < 3 && time.Since(t0) < 12*time.Second {
+		time.Sleep(20 * time.Millisecond)
+	}
+	n := conns()
+	close(rel)
+	c.Close()
+	obs := "ok"
+	if n < 2 {
+		obs = fmt.Sprintf("VIOLATION:%d sync round(s) reached the server in %v; the first one is still held, and no other was started", n, time.Since(t0).Round(time.Millisecond))
+	}
+	t.Count("loop.silent-server")
+	t.Line("c11.check what=rounds-go-on-while-a-server-holds-one held=%d => %s", n, obs)
+	t.DumpStats()
+	return nil
+}
+
 func runEmitScenario(seed uint64, size int, t *Trace) error {
+	if seed%5 == 2 {
+		return runSilentServerScenario(seed, t)
+	}
 	r := &Rng{s: seed*61 + 23}
 	dev := detKey(seed, 1)
 	sink := newUDPSink()
